@@ -1,9 +1,24 @@
 package main
 
 // Replay of refuted obligations on the real package (DESIGN.md §4, Appendix D).
+// A recipe turns the solver's model into a concrete input, injects an in-package test with
+// `go test -overlay` (nothing is written into the repository) and observes the property being
+// broken on the real code.
 
-// replayRecipes maps an obligation (by function and kind) to a recipe that turns the model into a
-// concrete input and observes the property being broken on the real code.
+import (
+	"bytes"
+	"context"
+	"encoding/json"
+	"fmt"
+	"go/types"
+	"os"
+	"os/exec"
+	"path/filepath"
+	"strconv"
+	"strings"
+	"time"
+)
+
 type replayRecipe func(w *World, prop string, o *Obligation, rp *Replay) bool
 
 var replayRecipes = map[string]replayRecipe{}
@@ -17,4 +32,136 @@ func runReplay(w *World, prop string, o *Obligation, rp *Replay) {
 			}
 		}
 	}
+	// generic recipe: direct call with scalar arguments taken from the model
+	if o.fx.C != nil && o.fx.C.Flags["replay_go"] != "" {
+		replayScalarCall(w, prop, o, rp)
+	}
+}
+
+// modelInt parses an SMT integer value.
+func modelInt(v string) (int64, bool) {
+	v = strings.TrimSpace(v)
+	neg := false
+	if strings.HasPrefix(v, "(-") {
+		neg = true
+		v = strings.TrimSpace(strings.TrimSuffix(strings.TrimPrefix(v, "(-"), ")"))
+	}
+	n, err := strconv.ParseInt(v, 10, 64)
+	if err != nil {
+		return 0, false
+	}
+	if neg {
+		n = -n
+	}
+	return n, true
+}
+
+// goLiteralFromModel renders a scalar parameter value as a Go literal.
+func goLiteralFromModel(t types.Type, sym string, model map[string]string) (string, bool) {
+	v, ok := model[sym]
+	b, isBasic := t.Underlying().(*types.Basic)
+	if !isBasic {
+		return "", false
+	}
+	switch {
+	case b.Info()&types.IsInteger != 0:
+		if !ok {
+			return "0", true
+		}
+		n, ok2 := modelInt(v)
+		if !ok2 {
+			return "", false
+		}
+		return fmt.Sprintf("%s(%d)", b.Name(), n), true
+	case b.Info()&types.IsBoolean != 0:
+		if !ok {
+			return "false", true
+		}
+		return v, v == "true" || v == "false"
+	}
+	return "", false
+}
+
+// replayScalarCall: call the function with the model's arguments and evaluate the Go rendering of
+// the postcondition (flag replay_go) on the real result.
+func replayScalarCall(w *World, prop string, o *Obligation, rp *Replay) bool {
+	fx := o.fx
+	fn := fx.Fn
+	if fn.Signature.Recv() != nil {
+		return false
+	}
+	var args []string
+	var decls []string
+	for _, p := range fn.Params {
+		lit, ok := goLiteralFromModel(p.Type(), fx.params[p.Name()].S, o.Answer.Model)
+		if !ok {
+			return false
+		}
+		args = append(args, p.Name())
+		decls = append(decls, fmt.Sprintf("\t%s := %s", p.Name(), lit))
+	}
+	nres := fn.Signature.Results().Len()
+	var rets []string
+	for i := 0; i < nres; i++ {
+		rets = append(rets, fmt.Sprintf("ret%d", i))
+	}
+	call := fmt.Sprintf("%s(%s)", fn.Name(), strings.Join(args, ", "))
+	if nres > 0 {
+		call = strings.Join(rets, ", ") + " := " + call
+	}
+	body := fmt.Sprintf(`package twig
+
+import "testing"
+
+func TestVerifReplay(t *testing.T) {
+%s
+	%s
+	_ = []interface{}{%s}
+	if !(%s) {
+		t.Fatalf("REPRODUCED: %s(%s) = %%v violates the contract", []interface{}{%s})
+	}
+}
+`, strings.Join(decls, "\n"), call, strings.Join(append(append([]string{}, args...), rets...), ", "),
+		fx.C.Flags["replay_go"], fn.Name(), strings.ReplaceAll(strings.Join(decls, "; "), "\t", ""), strings.Join(rets, ", "))
+	out, failed := runOverlayTest(w, body, "TestVerifReplay")
+	rp.ReplayKind = "scalar_call"
+	rp.ReplayInput = map[string]any{"test_source": body}
+	rp.ReplayOut = out
+	rp.Reproduced = failed && strings.Contains(out, "REPRODUCED")
+	return true
+}
+
+// runOverlayTest injects the test (and the Go reference spec helpers) into the package and runs it.
+// Returns the transcript and whether the test failed.
+func runOverlayTest(w *World, testSrc, run string) (string, bool) {
+	dir, err := os.MkdirTemp("", "govc-replay-")
+	if err != nil {
+		return err.Error(), false
+	}
+	defer os.RemoveAll(dir)
+	tf := filepath.Join(dir, "zz_verif_replay_test.go")
+	if err := os.WriteFile(tf, []byte(testSrc), 0o644); err != nil {
+		return err.Error(), false
+	}
+	repl := map[string]string{filepath.Join(w.RepoDir, "zz_verif_replay_test.go"): tf}
+	// Go reference implementations of the spec functions
+	specGo := filepath.Join(verifDir, "replay", "spec_test.go.txt")
+	if b, err := os.ReadFile(specGo); err == nil {
+		sf := filepath.Join(dir, "zz_verif_spec_test.go")
+		os.WriteFile(sf, b, 0o644)
+		repl[filepath.Join(w.RepoDir, "zz_verif_spec_test.go")] = sf
+	}
+	ov, _ := json.Marshal(map[string]any{"Replace": repl})
+	ovf := filepath.Join(dir, "overlay.json")
+	os.WriteFile(ovf, ov, 0o644)
+	ctx, cancel := context.WithTimeout(context.Background(), 120*time.Second)
+	defer cancel()
+	cmd := exec.CommandContext(ctx, "bash", "-c", fmt.Sprintf("ulimit -v 8000000; cd %s && go test -overlay %s -vet=off -timeout 60s -count=1 -run '^%s$' . 2>&1 | tail -40", w.RepoDir, ovf, run))
+	var out bytes.Buffer
+	cmd.Stdout = &out
+	cmd.Stderr = &out
+	cmd.Run()
+	text := out.String()
+	failed := strings.Contains(text, "--- FAIL") || strings.Contains(text, "panic:") || strings.Contains(text, "FAIL\t")
+	return text, failed
 }
